@@ -433,7 +433,14 @@ safe_call_function_pointer (funptr_t * funp, int num_arg)
   svalue_t *ret;
 
   if (!save_context (&econ))
-    return 0;
+    {
+      pop_n_elems (num_arg);
+      return 0;
+    }
+  /* As in safe_apply(): the arguments belong to the call.  The callee may already have dropped surplus
+   * ones when the error is raised (sp below the value saved above), so unwind to the slot below the
+   * arguments instead of unwinding to the last argument and popping num_arg more. */
+  econ.save_sp = sp - num_arg;
 
   if (!setjmp (econ.context))
     {
@@ -442,8 +449,6 @@ safe_call_function_pointer (funptr_t * funp, int num_arg)
   else
     {
       restore_context (&econ);
-      /* condition was restored to where it was when we came in */
-      pop_n_elems (num_arg);
       /* the budget ran out inside the call: the caller has none left (see safe_apply) */
       if (get_error_state (ES_MAX_EVAL_COST))
         eval_cost = 1;
